@@ -101,6 +101,10 @@ def main():
             tech += " + per-run translation of decision logic with proof obligations"
         if pid == "C01":
             text += " The CSR row-pointer computation of MatrixRelationshipSet.__init__ is re-translated on every run (translate/py2lean_arrow.py → LK/Generated/RowPtrsC01.lean) and proved equal to the model's rowPtrs (rowPtrsT_eq)."
+        if pid == "C09":
+            text += (" _sim_row (the similarity row of the item-item model, with its call site in _sim_block) is re-translated statement by statement on every run (translate/py2lean_sim.py → LK/Generated/SimC09.lean, "
+                     "torch operations in LK/Model/TorchOps.lean) and proved equal to the model's simRowTrunc (simRowT_eq).")
+            tech += " + per-run translation of the similarity-row kernel proved equal to the model"
         if pid == "C19":
             text += " The linear transform of StochasticTopNRanker is re-translated on every run (translate/py2lean_imp.py → LK/Generated/ImpC19.lean) and proved equal to the model's linearWeights."
         if pid == "C07":
